@@ -226,7 +226,11 @@ func H_C13_Stream() {
 // of the same length, for splices). Returns the attacker's buffer and what was done.
 //   0 unmodified replay, 1 one byte replaced by a different value, 2 truncated, 3 one byte appended, 4 splice
 func vMutate(wire, wire2 []byte) (atk []byte, kind, pos int) {
-	kind = vPick(5)
+	return vMutateN(wire, wire2, 5)
+}
+
+func vMutateN(wire, wire2 []byte, kinds int) (atk []byte, kind, pos int) {
+	kind = vPick(kinds)
 	atk = append([]byte(nil), wire...)
 	switch kind {
 	case 1:
@@ -316,12 +320,24 @@ func H_C14_Packet() {
 		vCover("c14.pkt.skip")
 		return
 	}
-	atk, kind, pos := vMutate(wire, wire2)
+	atk, kind, pos := vMutateN(wire, wire2, 6)
+	if kind == 5 {
+		// no ciphertext at all: the plaintext message itself, behind the right label header
+		atk = append([]byte{byte(userMsg)}, p1...)
+		if label != "" {
+			atk = makeLabelHeader(label, atk)
+		}
+	}
 
 	fb.m.ingestPacket(append([]byte(nil), atk...), vAddr("10.0.0.66:1"), time.Time{})
 
 	h, delivered := fb.m.getNextMessage()
 	lo := labelOverhead(label)
+	if kind == 5 {
+		vAssert(!delivered, "c14.pkt.plaintext-dropped")
+		vCover("c14.pkt.plaintext")
+		return
+	}
 	if !delivered {
 		vAssert(kind != 0 || kv == 2, "c14.pkt.genuine-accepted")
 		vCover("c14.pkt.dropped")
@@ -376,10 +392,29 @@ func H_C14_Stream() {
 	vAssert(fa.m.sendUserMsg(to, p1) == nil, "c14.str.send-ok")
 	fa.tr.conn = out2
 	vAssert(fa.m.sendUserMsg(to, p2) == nil, "c14.str.send2-ok")
-	atk, kind, pos := vMutate(out1.out, out2.out)
+	atk, kind, pos := vMutateN(out1.out, out2.out, 6)
+	if kind == 5 {
+		// an unencrypted but otherwise well-formed user message stream, behind the right label header
+		plainConf := vBaseConfig()
+		plainConf.Label = label
+		fp := vNewML(plainConf)
+		pc := &vConn{}
+		fp.tr.conn = pc
+		vAssert(fp.m.sendUserMsg(to, p1) == nil, "c14.str.plain-send")
+		atk = pc.out
+	}
 	conn := &vConn{in: atk, hang: vBool()}
 	fb.m.handleConn(conn)
 	lo := labelOverhead(label)
+	if kind == 5 {
+		vAssert(len(fb.del.msgs) == 0, "c14.str.plaintext-refused")
+		vAssert(conn.writes <= 1, "c14.str.plaintext-one-error-reply")
+		if conn.writes == 1 {
+			vAssert(len(conn.out) > 0 && conn.out[0] == byte(encryptMsg), "c14.str.error-reply-encrypted")
+		}
+		vCover("c14.str.plaintext")
+		return
+	}
 	if len(fb.del.msgs) == 0 {
 		vAssert(kind != 0, "c14.str.genuine-accepted")
 		vAssert(conn.writes <= 1, "c14.str.at-most-one-error-reply")
